@@ -599,6 +599,14 @@ type ContractSet struct {
 	Trusted   bool
 	Sealed    []string
 	Immutable []string
+	Frames    []*FrameDecl
+}
+
+// FrameDecl: the only functions of the package allowed to store to a field.
+type FrameDecl struct {
+	Field   string // Type.field
+	Writers []string
+	Props   []string
 }
 
 // ghost variables ("$name") and ghost fields ("Type.$field") with their type names
@@ -774,7 +782,22 @@ func LoadContractFile(path string, trusted bool) (*ContractSet, error) {
 				return nil, fmt.Errorf("%s:%d: %v", path, it.head.n, err)
 			}
 			cs.Lemmas = append(cs.Lemmas, &Lemma{Pkg: cs, Name: name, Props: props, Expr: e, Text: body, IsAxiom: word == "axiom", Uses: uses})
-		case "func", "extern":
+		case "frame":
+			// frame <Type.field> writers f1 f2 ...   [props]
+			fl := strings.Fields(rest)
+			var props []string
+			if len(fl) > 0 && strings.HasPrefix(fl[len(fl)-1], "[") {
+				props, _ = parseTags(fl[len(fl)-1])
+				fl = fl[:len(fl)-1]
+			}
+			if len(fl) < 3 || fl[1] != "writers" {
+				return nil, fmt.Errorf("%s:%d: frame Type.field writers f1 f2 ... [props]", path, it.head.n)
+			}
+			cs.Frames = append(cs.Frames, &FrameDecl{Field: fl[0], Writers: fl[2:], Props: props})
+		case "func", "extern", "functype":
+			if word == "functype" {
+				rest = "functype:" + rest
+			}
 			fs := &FuncSpec{Pkg: cs, Flags: map[string]string{}, Line: it.head.n, Trusted: trusted || word == "extern"}
 			target := rest
 			if j := strings.LastIndex(rest, "["); j >= 0 && strings.HasSuffix(strings.TrimSpace(rest), "]") && regexp.MustCompile(`\[[A-Z0-9, ]+\]$`).MatchString(strings.TrimSpace(rest)) {
